@@ -180,7 +180,11 @@ def eval_case(case: dict) -> dict:
         npages = len(d.pages)
         removed = bool(b.removed)
     wrapped = bool(c.get("heights")) and any(h > 1 for h in c["heights"])
-    return {"viol": viol, "nt": npages >= 2 or removed or wrapped, "cnt": {"pages>=2": npages >= 2, "removed_column": removed, "wrapped": wrapped, "multi": multi}}
+    res = {"viol": viol, "nt": npages >= 2 or removed or wrapped, "cnt": {"pages>=2": npages >= 2, "removed_column": removed, "wrapped": wrapped, "multi": multi}}
+    if not multi and npages >= 2 and removed and c.get("n", 0) >= 4:
+        res["sample"] = {"case": c, "shown_columns": b.shown, "rows_per_page": [sum(1 for p in pages_of["D"] if p == i) for i in range(npages)],
+                         "first_row": got["D"][0][1] if got["D"] else None}
+    return res
 
 
 def plan(run):
